@@ -1,4 +1,5 @@
 import Frp.Model.PluginChain
+import Frp.Model.PluginSite
 import Frp.Lemmas.PluginChain
 /-
   C15 — Server plugins gate every operation, fail closed, and see each other's edits.
@@ -610,6 +611,500 @@ theorem model_notifyHoldsOn [DecidableEq C] (R : List (Plugin C)) (mk : Str → 
     notifyHoldsOn R mk (SessP.run R mk {} ops).stopped out = true :=
   (notifyHoldsOn_sound R mk _ out).2 (notify_all_schedules R mk ops gs out hgs hrun)
 
+/-! ## Call sites over histories: every occurrence of every gated operation passes the gate
+
+  `Frp.PluginSite` (server/service.go handleConnection + RegisterControl + RegisterWorkConn,
+  server/control.go handleNewProxy / handlePing, server/proxy/proxy.go handleUserTCPConnection):
+  several sessions, logins with an empty run id, an unknown one, the run id of a LIVE session
+  (re-login / replacement) or of a session that has ended, the same operation any number of times —
+  and a plugin manager that may be another one at every step (behaviours flip between operations). -/
+
+section site
+open PluginSite
+
+/-- what an observer sees of a `Handle` call: the plugin's id and a view of the content (the identity
+    for the model itself; the correspondence engine cannot compare ephemeral addresses) -/
+def viewSeen (view : C → C) (e : Seen C) : Seen C := (e.1, view e.2)
+
+/-- what C15 demands of one visit of a call site: the `Handle` calls are the property's list (every
+    plugin of the chain in order on the composed content up to and including the first that does not
+    pass), and the server goes on only if every plugin of the chain was consulted and passed -/
+structure SiteSpec (view : C → C) (op : Op) (R : List (Plugin C)) (c0 : C) (proceeded : Bool)
+    (cons : List (Seen C)) : Prop where
+  consulted : cons = (consultedSpec op R c0).map (viewSeen view)
+  gate : proceeded = true →
+    (∀ s ∈ steps op R c0, stepPasses op s = true) ∧
+    cons = ((steps op R c0).map seenOf).map (viewSeen view)
+
+/-- executable form (run by the driver on what the plugin server received and what the peer saw) -/
+def siteHoldsOn [DecidableEq C] (view : C → C) (op : Op) (R : List (Plugin C)) (c0 : C)
+    (proceeded : Bool) (cons : List (Seen C)) : Bool :=
+  cons == (consultedSpec op R c0).map (viewSeen view) &&
+    (!proceeded || (steps op R c0).all (stepPasses op))
+
+theorem consultedSpec_of_all (op : Op) (R : List (Plugin C)) (c : C)
+    (hall : ∀ s ∈ steps op R c, stepPasses op s = true) :
+    consultedSpec op R c = (steps op R c).map seenOf := by
+  rw [consultedSpec, ListW.takeWhile_eq_self _ _ hall, List.take_of_length_le (by omega)]
+
+theorem siteHoldsOn_sound [DecidableEq C] (view : C → C) (op : Op) (R : List (Plugin C)) (c0 : C)
+    (proceeded : Bool) (cons : List (Seen C)) :
+    siteHoldsOn view op R c0 proceeded cons = true ↔ SiteSpec view op R c0 proceeded cons := by
+  simp only [siteHoldsOn, Bool.and_eq_true, beq_iff_eq, Bool.or_eq_true, Bool.not_eq_true',
+    List.all_eq_true]
+  constructor
+  · rintro ⟨h1, h2⟩
+    refine ⟨h1, fun hp => ?_⟩
+    have hall : ∀ s ∈ steps op R c0, stepPasses op s = true := by
+      rcases h2 with h2 | h2
+      · rw [hp] at h2; cases h2
+      · exact h2
+    exact ⟨hall, by rw [h1, consultedSpec_of_all op R c0 hall]⟩
+  · intro h
+    refine ⟨h.consulted, ?_⟩
+    cases hp : proceeded with
+    | false => exact Or.inl rfl
+    | true => exact Or.inr (h.gate hp).1
+
+/-- an event is *gated*: its result and its `Handle` calls are those of the manager loop on the chain
+    and the content of the event, and the server went on only on `ok` -/
+def EvGated (e : Ev C) : Prop :=
+  e.res = (gated e.op e.chain e.offered).1 ∧ e.cons = (gated e.op e.chain e.offered).2 ∧
+  (e.proceeded = true → e.res.isOk = true)
+
+/-- one message: whatever the state (which sessions live, which ended), whatever the manager of the
+    moment, every event is a visit of the manager's chain of that operation and is gated -/
+theorem step_events_gated (E : Enc C) (m : Manager C) (s : Srv) (x : Msg) :
+    ∀ e ∈ (step E m s x).2, e.chain = m.list e.op ∧ EvGated e := by
+  intro e he
+  cases x with
+  | login slot user rid genId authOk =>
+    simp only [step] at he
+    split at he
+    · rename_i c' hr
+      simp only [Manager.login] at hr
+      split at he <;> simp only [List.mem_singleton] at he <;> subst he <;>
+        simp [EvGated, Manager.list, Manager.login, hr, Result.isOk]
+    · rename_i hr
+      simp only [List.mem_singleton] at he
+      subst he
+      simp [EvGated, Manager.list, Manager.login]
+  | newProxy slot name regOk =>
+    simp only [step] at he
+    split at he
+    · cases he
+    · split at he
+      · rename_i c' hr
+        simp only [Manager.newProxy] at hr
+        split at he <;> simp only [List.mem_singleton] at he <;> subst he <;>
+          simp [EvGated, Manager.list, Manager.newProxy, hr, Result.isOk]
+      · simp only [List.mem_singleton] at he
+        subst he
+        simp [EvGated, Manager.list, Manager.newProxy]
+  | ping slot =>
+    simp only [step] at he
+    split at he
+    · cases he
+    · simp only [List.mem_singleton] at he
+      subst he
+      simp [EvGated, Manager.list, Manager.ping]
+  | newWorkConn rid =>
+    simp only [step] at he
+    split at he
+    · cases he
+    · simp only [List.mem_singleton] at he
+      subst he
+      simp [EvGated, Manager.list, Manager.newWorkConn]
+  | newUserConn name =>
+    simp only [step] at he
+    split at he
+    · cases he
+    · simp only [List.mem_singleton] at he
+      subst he
+      simp [EvGated, Manager.list, Manager.newUserConn]
+  | connClosed slot => simp [step] at he
+
+/-- **every occurrence, in every history**: each event of the trace visited the chain of one of the
+    managers of the history and is gated -/
+theorem run_events_gated (E : Enc C) (hist : List (Manager C × Msg)) (s : Srv) :
+    ∀ e ∈ (run E s hist).2, (∃ mx ∈ hist, e.chain = mx.1.list e.op) ∧ EvGated e := by
+  induction hist generalizing s with
+  | nil => intro e he; simp [run] at he
+  | cons mx rest ih =>
+    obtain ⟨m, x⟩ := mx
+    intro e he
+    simp only [run, List.mem_append] at he
+    rcases he with he | he
+    · have := step_events_gated E m s x e he
+      exact ⟨⟨(m, x), List.mem_cons_self .., this.1⟩, this.2⟩
+    · have := ih _ e he
+      obtain ⟨⟨mx', hm, hc⟩, hg⟩ := this
+      exact ⟨⟨mx', List.mem_cons_of_mem _ hm, hc⟩, hg⟩
+
+/-- a gated event meets the property's `Spec` and `SiteSpec` -/
+theorem gated_event_spec (view : C → C) (e : Ev C) (h : EvGated e) :
+    Spec e.op e.chain e.offered e.res e.cons ∧
+    SiteSpec view e.op e.chain e.offered e.proceeded (e.cons.map (viewSeen view)) := by
+  obtain ⟨h1, h2, h3⟩ := h
+  refine ⟨by rw [h1, h2]; exact model_spec _ _ _, ⟨by rw [h2, gated_consulted], fun hp => ?_⟩⟩
+  have hok := h3 hp
+  rw [h1] at hok
+  cases hr : (gated e.op e.chain e.offered).1 with
+  | ok c' =>
+    have := (gated_ok_iff _ _ _ c').1 hr
+    exact ⟨this.1, by rw [h2, (proceed_all_consulted _ _ _ c' hr).1]⟩
+  | error msg => rw [hr] at hok; cases hok
+  | panic => rw [hr] at hok; cases hok
+
+/-- **The clause, for every history**: whenever the server goes on with an operation — the first
+    login or the tenth, a login carrying the run id of a live session, a NewProxy for a name that is
+    in use, a Ping after the plugins changed their mind … — every plugin registered for that operation
+    at that moment was consulted, in order, each on the composition of the earlier edits, none refused,
+    and the content the server acts on is the composition of all edits. -/
+theorem site_proceeds_only_through_gate (E : Enc C) (hist : List (Manager C × Msg)) (s : Srv) :
+    ∀ e ∈ (run E s hist).2, e.proceeded = true →
+      (∀ st ∈ steps e.op e.chain e.offered, stepPasses e.op st = true) ∧
+      e.cons = (steps e.op e.chain e.offered).map seenOf ∧
+      e.res = .ok (final e.op e.chain e.offered) := by
+  intro e he hp
+  obtain ⟨h1, h2, h3⟩ := (run_events_gated E hist s e he).2
+  have hok := h3 hp
+  cases hr : e.res with
+  | ok c' =>
+    rw [h1] at hr
+    have := (gated_ok_iff _ _ _ c').1 hr
+    exact ⟨this.1, by rw [h2]; exact (proceed_all_consulted _ _ _ c' hr).1, by rw [this.2]⟩
+  | error msg => rw [hr] at hok; cases hok
+  | panic => rw [hr] at hok; cases hok
+
+/-- … and refused or not, what the plugins were asked is the property's list, at every occurrence -/
+theorem site_every_occurrence (E : Enc C) (hist : List (Manager C × Msg)) (s : Srv) (view : C → C) :
+    ∀ e ∈ (run E s hist).2,
+      Spec e.op e.chain e.offered e.res e.cons ∧
+      SiteSpec view e.op e.chain e.offered e.proceeded (e.cons.map (viewSeen view)) :=
+  fun e he => gated_event_spec view e (run_events_gated E hist s e he).2
+
+/-- the model meets the executable predicate at every visit of every history, under every view -/
+theorem model_siteHoldsOn [DecidableEq C] (E : Enc C) (hist : List (Manager C × Msg)) (s : Srv)
+    (view : C → C) :
+    ∀ e ∈ (run E s hist).2,
+      siteHoldsOn view e.op e.chain e.offered e.proceeded (e.cons.map (viewSeen view)) = true :=
+  fun e he => (siteHoldsOn_sound _ _ _ _ _ _).2 (site_every_occurrence E hist s view e he).2
+
+/-- **The login call site, for ALL kinds of login**: `s` is any server state and `rid` any run id —
+    empty, never seen, the run id of a session that lives in `s` (re-login / replacement), the run id
+    of a session that has ended (no longer in `s`).  In each case exactly one visit of the Login chain
+    of the moment is made on the content built from the message; a login that is not accepted leaves the
+    server state as it was; an accepted one stores a Control built from the content AS REWRITTEN by the
+    chain (user, run id), replacing whatever was stored under that run id. -/
+theorem login_gated_every_kind (E : Enc C) (m : Manager C) (s : Srv) (slot : Nat)
+    (user rid genId : Str) (authOk : Bool) :
+    ∃ e, (step E m s (.login slot user rid genId authOk)).2 = [e] ∧
+      e.op = .login ∧ e.chain = m.loginPlugins ∧ e.offered = E.login user rid ∧
+      e.res = (gated .login m.loginPlugins (E.login user rid)).1 ∧
+      e.cons = consultedSpec .login m.loginPlugins (E.login user rid) ∧
+      (e.proceeded = false → (step E m s (.login slot user rid genId authOk)).1 = s) ∧
+      (e.proceeded = true →
+        (∀ st ∈ steps .login m.loginPlugins (E.login user rid), stepPasses .login st = true) ∧
+        (step E m s (.login slot user rid genId authOk)).1 =
+          s.add ⟨slot,
+            (if E.loginRid (final .login m.loginPlugins (E.login user rid)) = [] then genId
+             else E.loginRid (final .login m.loginPlugins (E.login user rid))),
+            E.loginUser (final .login m.loginPlugins (E.login user rid)), []⟩) := by
+  simp only [step]
+  cases hr : (m.login (E.login user rid)).1 with
+  | ok c' =>
+    have hr' : (gated .login m.loginPlugins (E.login user rid)).1 = .ok c' := hr
+    have hf := (gated_ok_iff _ _ _ c').1 hr'
+    cases authOk with
+    | true =>
+      refine ⟨_, rfl, rfl, rfl, rfl, hr.symm, ?_, ?_, ?_⟩
+      · show (gated _ _ _).2 = _; rw [gated_consulted]
+      · intro h; cases h
+      · intro _; refine ⟨hf.1, ?_⟩; simp only [if_true]; rw [← hf.2]
+    | false =>
+      refine ⟨_, rfl, rfl, rfl, rfl, hr.symm, ?_, ?_, ?_⟩
+      · show (gated _ _ _).2 = _; rw [gated_consulted]
+      · intro _; simp
+      · intro h; cases h
+  | error msg =>
+    refine ⟨_, rfl, rfl, rfl, rfl, hr.symm, ?_, ?_, ?_⟩
+    · show (gated _ _ _).2 = _; rw [gated_consulted]
+    · intro _; rfl
+    · intro h; cases h
+  | panic =>
+    refine ⟨_, rfl, rfl, rfl, rfl, hr.symm, ?_, ?_, ?_⟩
+    · show (gated _ _ _).2 = _; rw [gated_consulted]
+    · intro _; rfl
+    · intro h; cases h
+
+/-- after `ctlManager.Add` the run id names the new Control and nothing else -/
+theorem add_unique (s : Srv) (c : Ctl) :
+    c ∈ (s.add c).ctls ∧ ∀ o ∈ (s.add c).ctls, o.rid = c.rid → o = c := by
+  constructor
+  · simp [Srv.add]
+  · intro o ho hr
+    simp only [Srv.add, List.mem_append, List.mem_filter, List.mem_singleton] at ho
+    rcases ho with ⟨_, h⟩ | h
+    · simp [hr] at h
+    · exact h
+
+/-- **The server state changes only through the gate**: a message changes the session / proxy tables
+    only if it is the end of a connection or one of its visits of a chain proceeded. -/
+theorem effect_only_through_gate (E : Enc C) (m : Manager C) (s : Srv) (x : Msg)
+    (h : (step E m s x).1 ≠ s) :
+    (∃ slot, x = .connClosed slot) ∨ ∃ e ∈ (step E m s x).2, e.proceeded = true := by
+  cases x with
+  | login slot user rid genId authOk =>
+    right
+    simp only [step] at h ⊢
+    split at h
+    · split at h
+      · rename_i hr ha
+        simp [hr, ha]
+      · exact absurd rfl h
+    · exact absurd rfl h
+  | newProxy slot name regOk =>
+    right
+    simp only [step] at h ⊢
+    split at h
+    · exact absurd rfl h
+    · rename_i ctl hs
+      split at h
+      · rename_i c' hr
+        split at h
+        · rename_i ha
+          simp [hr, ha]
+        · exact absurd rfl h
+      · exact absurd rfl h
+  | ping slot => simp only [step] at h; split at h <;> exact absurd rfl h
+  | newWorkConn rid => simp only [step] at h; split at h <;> exact absurd rfl h
+  | newUserConn name => simp only [step] at h; split at h <;> exact absurd rfl h
+  | connClosed slot => exact Or.inl ⟨slot, rfl⟩
+
+/-- a login event that let a session in whose user is `u` -/
+def LetInBy (E : Enc C) (u : Str) (e : Ev C) : Prop :=
+  e.op = .login ∧ e.proceeded = true ∧ ∃ c', e.res = .ok c' ∧ u = E.loginUser c'
+
+theorem step_sessions_let_in (E : Enc C) (m : Manager C) (s : Srv) (x : Msg) (T : List (Ev C))
+    (hinv : ∀ ctl ∈ s.ctls, ∃ e ∈ T, LetInBy E ctl.user e) :
+    ∀ ctl ∈ (step E m s x).1.ctls, ∃ e ∈ T ++ (step E m s x).2, LetInBy E ctl.user e := by
+  have keep : ∀ ctl ∈ s.ctls, ∀ T', ∃ e ∈ T ++ T', LetInBy E ctl.user e := by
+    intro ctl hc T'
+    obtain ⟨e, he, ha⟩ := hinv ctl hc
+    exact ⟨e, List.mem_append_left _ he, ha⟩
+  cases x with
+  | login slot user rid genId authOk =>
+    simp only [step]
+    split
+    · rename_i c' hr
+      split
+      · intro ctl hc
+        simp only [Srv.add, List.mem_append, List.mem_filter, List.mem_singleton] at hc
+        rcases hc with ⟨hc, _⟩ | hc
+        · exact keep ctl hc _
+        · subst hc
+          exact ⟨_, List.mem_append_right _ (List.mem_singleton.2 rfl), rfl, rfl, c', hr, rfl⟩
+      · intro ctl hc; exact keep ctl hc _
+    · intro ctl hc; exact keep ctl hc _
+  | newProxy slot name regOk =>
+    simp only [step]
+    split
+    · intro ctl hc; exact keep ctl hc _
+    · split
+      · split
+        · intro ctl hc
+          simp only [Srv.addProxy, List.mem_map] at hc
+          obtain ⟨o, ho, rfl⟩ := hc
+          have := keep o ho
+          split <;> exact this _
+        · intro ctl hc; exact keep ctl hc _
+      · intro ctl hc; exact keep ctl hc _
+  | ping slot => simp only [step]; split <;> intro ctl hc <;> exact keep ctl hc _
+  | newWorkConn rid => simp only [step]; split <;> intro ctl hc <;> exact keep ctl hc _
+  | newUserConn name => simp only [step]; split <;> intro ctl hc <;> exact keep ctl hc _
+  | connClosed slot =>
+    simp only [step]
+    intro ctl hc
+    exact keep ctl (List.mem_filter.1 hc).1 _
+
+theorem run_sessions_let_in (E : Enc C) (hist : List (Manager C × Msg)) (s : Srv) (T : List (Ev C))
+    (hinv : ∀ ctl ∈ s.ctls, ∃ e ∈ T, LetInBy E ctl.user e) :
+    ∀ ctl ∈ (run E s hist).1.ctls, ∃ e ∈ T ++ (run E s hist).2, LetInBy E ctl.user e := by
+  induction hist generalizing s T with
+  | nil => intro ctl hc; simpa [run] using hinv ctl hc
+  | cons mx rest ih =>
+    obtain ⟨m, x⟩ := mx
+    have h1 := step_sessions_let_in E m s x T hinv
+    have h2 := ih (step E m s x).1 (T ++ (step E m s x).2) h1
+    intro ctl hc
+    simp only [run] at hc ⊢
+    rw [← List.append_assoc]
+    exact h2 ctl hc
+
+/-- **No session without a consulted, consenting Login chain, and its user is the chain's rewrite**
+    (invariant over all histories): for every Control the server holds after any history there is a
+    login event in which every plugin then registered for Login was consulted in order and passed, and
+    the session's user — what every later NewProxy / Ping / NewWorkConn / NewUserConn / CloseProxy
+    request of that session carries — is the user of the composition of their edits. -/
+theorem session_user_is_login_rewrite (E : Enc C) (hist : List (Manager C × Msg)) :
+    ∀ ctl ∈ (run E {} hist).1.ctls, ∃ e ∈ (run E {} hist).2,
+      e.op = .login ∧
+      (∀ st ∈ steps .login e.chain e.offered, stepPasses .login st = true) ∧
+      e.cons = (steps .login e.chain e.offered).map seenOf ∧
+      ctl.user = E.loginUser (final .login e.chain e.offered) := by
+  intro ctl hc
+  have := run_sessions_let_in E hist {} [] (by intro c h; cases h) ctl hc
+  simp only [List.nil_append] at this
+  obtain ⟨e, he, hop, hp, c', hr, hu⟩ := this
+  have hg := site_proceeds_only_through_gate E hist {} e he hp
+  rw [hop] at hg
+  refine ⟨e, he, hop, hg.1, hg.2.1, ?_⟩
+  have : c' = final .login e.chain e.offered := by
+    have h := hg.2.2; rw [hr] at h; injection h
+  rw [hu, this]
+
+/-- the requests of a session carry the user stored at its login -/
+def OfferedFrom (E : Enc C) (u : Str) (e : Ev C) : Prop :=
+  match e.op with
+  | .newProxy => ∃ n, e.offered = E.newProxy n u
+  | .ping => e.offered = E.ping u
+  | .newWorkConn => ∃ r, e.offered = E.newWorkConn r u
+  | .newUserConn => ∃ n, e.offered = E.newUserConn n u
+  | _ => True
+
+/-- every NewProxy / Ping / NewWorkConn / NewUserConn visit belongs to a session the server holds and
+    offers the plugins that session's (rewritten) user -/
+theorem offered_carries_session_user (E : Enc C) (m : Manager C) (s : Srv) (x : Msg) :
+    ∀ e ∈ (step E m s x).2, e.op ≠ .login → ∃ ctl ∈ s.ctls, OfferedFrom E ctl.user e := by
+  intro e he hop
+  cases x with
+  | login slot user rid genId authOk =>
+    exfalso
+    simp only [step] at he
+    split at he
+    · split at he <;> simp only [List.mem_singleton] at he <;> subst he <;> exact hop rfl
+    · simp only [List.mem_singleton] at he; subst he; exact hop rfl
+  | newProxy slot name regOk =>
+    simp only [step] at he
+    split at he
+    · cases he
+    · rename_i ctl hs
+      have hm : ctl ∈ s.ctls := List.mem_of_find?_eq_some hs
+      split at he
+      · split at he <;> simp only [List.mem_singleton] at he <;> subst he <;>
+          exact ⟨ctl, hm, name, rfl⟩
+      · simp only [List.mem_singleton] at he; subst he; exact ⟨ctl, hm, name, rfl⟩
+  | ping slot =>
+    simp only [step] at he
+    split at he
+    · cases he
+    · rename_i ctl hs
+      simp only [List.mem_singleton] at he; subst he
+      exact ⟨ctl, List.mem_of_find?_eq_some hs, rfl⟩
+  | newWorkConn rid =>
+    simp only [step] at he
+    split at he
+    · cases he
+    · rename_i ctl hs
+      simp only [List.mem_singleton] at he; subst he
+      exact ⟨ctl, List.mem_of_find?_eq_some hs, rid, rfl⟩
+  | newUserConn name =>
+    simp only [step] at he
+    split at he
+    · cases he
+    · rename_i ctl hs
+      simp only [List.mem_singleton] at he; subst he
+      exact ⟨ctl, List.mem_of_find?_eq_some hs, name, rfl⟩
+  | connClosed slot => simp [step] at he
+
+/-- a NewProxy event that registered a proxy under the name `n` -/
+def RegisteredBy (E : Enc C) (n : Str) (e : Ev C) : Prop :=
+  e.op = .newProxy ∧ e.proceeded = true ∧ ∃ c', e.res = .ok c' ∧ n = E.proxyName c'
+
+theorem step_proxies_registered (E : Enc C) (m : Manager C) (s : Srv) (x : Msg) (T : List (Ev C))
+    (hinv : ∀ ctl ∈ s.ctls, ∀ n ∈ ctl.proxies, ∃ e ∈ T, RegisteredBy E n e) :
+    ∀ ctl ∈ (step E m s x).1.ctls, ∀ n ∈ ctl.proxies,
+      ∃ e ∈ T ++ (step E m s x).2, RegisteredBy E n e := by
+  have keep : ∀ ctl ∈ s.ctls, ∀ n ∈ ctl.proxies, ∀ T', ∃ e ∈ T ++ T', RegisteredBy E n e := by
+    intro ctl hc n hn T'
+    obtain ⟨e, he, ha⟩ := hinv ctl hc n hn
+    exact ⟨e, List.mem_append_left _ he, ha⟩
+  cases x with
+  | login slot user rid genId authOk =>
+    simp only [step]
+    split
+    · split
+      · intro ctl hc n hn
+        simp only [Srv.add, List.mem_append, List.mem_filter, List.mem_singleton] at hc
+        rcases hc with ⟨hc, _⟩ | hc
+        · exact keep ctl hc n hn _
+        · subst hc; cases hn
+      · intro ctl hc n hn; exact keep ctl hc n hn _
+    · intro ctl hc n hn; exact keep ctl hc n hn _
+  | newProxy slot name regOk =>
+    simp only [step]
+    split
+    · intro ctl hc n hn; exact keep ctl hc n hn _
+    · split
+      · rename_i c' hr
+        split
+        · intro ctl hc n hn
+          simp only [Srv.addProxy, List.mem_map] at hc
+          obtain ⟨o, ho, rfl⟩ := hc
+          split at hn
+          · simp only [List.mem_append, List.mem_singleton] at hn
+            rcases hn with hn | hn
+            · exact keep o ho n hn _
+            · exact ⟨_, List.mem_append_right _ (List.mem_singleton.2 rfl), rfl, rfl, c', hr, hn⟩
+          · exact keep o ho n hn _
+        · intro ctl hc n hn; exact keep ctl hc n hn _
+      · intro ctl hc n hn; exact keep ctl hc n hn _
+  | ping slot => simp only [step]; split <;> intro ctl hc n hn <;> exact keep ctl hc n hn _
+  | newWorkConn rid => simp only [step]; split <;> intro ctl hc n hn <;> exact keep ctl hc n hn _
+  | newUserConn name => simp only [step]; split <;> intro ctl hc n hn <;> exact keep ctl hc n hn _
+  | connClosed slot =>
+    simp only [step]
+    intro ctl hc n hn
+    exact keep ctl (List.mem_filter.1 hc).1 n hn _
+
+theorem run_proxies_registered (E : Enc C) (hist : List (Manager C × Msg)) (s : Srv) (T : List (Ev C))
+    (hinv : ∀ ctl ∈ s.ctls, ∀ n ∈ ctl.proxies, ∃ e ∈ T, RegisteredBy E n e) :
+    ∀ ctl ∈ (run E s hist).1.ctls, ∀ n ∈ ctl.proxies,
+      ∃ e ∈ T ++ (run E s hist).2, RegisteredBy E n e := by
+  induction hist generalizing s T with
+  | nil => intro ctl hc n hn; simpa [run] using hinv ctl hc n hn
+  | cons mx rest ih =>
+    obtain ⟨m, x⟩ := mx
+    have h1 := step_proxies_registered E m s x T hinv
+    have h2 := ih (step E m s x).1 (T ++ (step E m s x).2) h1
+    intro ctl hc n hn
+    simp only [run] at hc ⊢
+    rw [← List.append_assoc]
+    exact h2 ctl hc n hn
+
+/-- **Every proxy the server runs was let through by a consulted, consenting NewProxy chain, under the
+    name as rewritten** (invariant over all histories, also for names registered, closed with their
+    session, and registered again). -/
+theorem proxy_name_is_newproxy_rewrite (E : Enc C) (hist : List (Manager C × Msg)) :
+    ∀ ctl ∈ (run E {} hist).1.ctls, ∀ n ∈ ctl.proxies, ∃ e ∈ (run E {} hist).2,
+      e.op = .newProxy ∧
+      (∀ st ∈ steps .newProxy e.chain e.offered, stepPasses .newProxy st = true) ∧
+      e.cons = (steps .newProxy e.chain e.offered).map seenOf ∧
+      n = E.proxyName (final .newProxy e.chain e.offered) := by
+  intro ctl hc n hn
+  have := run_proxies_registered E hist {} [] (by intro c h; cases h) ctl hc n hn
+  simp only [List.nil_append] at this
+  obtain ⟨e, he, hop, hp, c', hr, hu⟩ := this
+  have hg := site_proceeds_only_through_gate E hist {} e he hp
+  rw [hop] at hg
+  refine ⟨e, he, hop, hg.1, hg.2.1, ?_⟩
+  have : c' = final .newProxy e.chain e.offered := by
+    have h := hg.2.2; rw [hr] at h; injection h
+  rw [hu, this]
+
+end site
+
 /-! ## Non-vacuity -/
 
 section examples
@@ -688,6 +1183,57 @@ example : notifyHoldsOn [pErrIf1 1, pApp 2 0] (mkC [9]) [[1], [3]]
     [(1, mkC [9] [1]), (2, mkC [9] [1])] = false := by decide +kernel
 example : notifyHoldsOn [pErrIf1 1, pApp 2 0] (mkC [9]) [[1], [3]]
     [(1, mkC [9] [3]), (1, mkC [9] [1]), (2, mkC [9] [1]), (2, mkC [9] [3])] = true := by decide +kernel
+
+/-! ### histories at the call sites -/
+section siteExamples
+open PluginSite
+
+/-- one plugin (id 1, Login + NewProxy) that rewrites: appends `+` to the user / the proxy name -/
+def mRewrite : Manager Content := mgr [Beh.toPlugin (.happ [43]) 1 [Op.login.name, Op.newProxy.name]]
+/-- the same plugin after its behaviour flipped: rejects everything -/
+def mReject : Manager Content := mgr [Beh.toPlugin (.hrej [110]) 1 [Op.login.name, Op.newProxy.name]]
+
+/-- the Controls held (slot, run id, user, proxies) -/
+def viewS (r : Srv × List (Ev Content)) : List Ctl := r.1.ctls
+/-- per visit of a call site: the `Handle` calls made, and whether the server went on -/
+def viewT (r : Srv × List (Ev Content)) : List (List (Nat × Content) × Bool) :=
+  r.2.map (fun e => (e.cons, e.proceeded))
+
+-- a first login (empty run id, the server draws [9]) is accepted with the user as rewritten; the plugin
+-- flips; then a login carrying the run id of the LIVE session, one with an unknown run id, and — after the
+-- first session ended — one with the run id of the ENDED session: the flipped plugin is consulted on each,
+-- each is refused, and the live session is not replaced
+def hist1 : List (Manager Content × Msg) :=
+  [(mRewrite, .login 0 [117] [] [9] true), (mReject, .login 1 [117] [9] [8] true),
+   (mReject, .login 2 [117] [7] [8] true), (mReject, .connClosed 0), (mReject, .login 3 [117] [9] [8] true)]
+example : viewT (run encContent {} hist1) =
+    [([(1, ⟨[117], []⟩)], true), ([(1, ⟨[117], [9]⟩)], false), ([(1, ⟨[117], [7]⟩)], false),
+     ([(1, ⟨[117], [9]⟩)], false)] := by decide +kernel
+example : viewS (run encContent {} (hist1.take 3)) = [⟨0, [9], [117, 43], []⟩] ∧
+    viewS (run encContent {} hist1) = [] := by decide +kernel
+-- a re-login on the live run id that the (still rewriting) plugin accepts replaces the session: one Control
+-- under [9], built from the SECOND message as rewritten; the proxy of the replaced session is gone, its name
+-- can be registered again and the NewProxy plugin is asked again, with the new session's rewritten user
+def hist2 : List (Manager Content × Msg) :=
+  [(mRewrite, .login 0 [117] [] [9] true), (mRewrite, .newProxy 0 [112] true),
+   (mRewrite, .login 1 [98] [9] [8] true), (mRewrite, .newProxy 0 [112] true),
+   (mRewrite, .newProxy 1 [112] true), (mReject, .newProxy 1 [113] true)]
+example : viewS (run encContent {} hist2) = [⟨1, [9], [98, 43], [[112, 43]]⟩] := by decide +kernel
+example : viewT (run encContent {} hist2) =
+    [([(1, ⟨[117], []⟩)], true), ([(1, ⟨[112], [117, 43]⟩)], true), ([(1, ⟨[98], [9]⟩)], true),
+     ([(1, ⟨[112], [98, 43]⟩)], true), ([(1, ⟨[113], [98, 43]⟩)], false)] := by decide +kernel
+-- the executable predicate tells a login that went on without the plugin having been asked, and a
+-- NewProxy request that carried the user as the client sent it instead of the rewritten one
+example : siteHoldsOn id .login mReject.loginPlugins (encContent.login [117] [9]) true [] = false := by
+  decide +kernel
+example : siteHoldsOn id .login mRewrite.loginPlugins (encContent.login [117] [9]) true [] = false := by
+  decide +kernel
+example : siteHoldsOn id .newProxy mRewrite.newProxyPlugins (encContent.newProxy [112] [98, 43]) true
+    [(1, ⟨[112], [98]⟩)] = false := by decide +kernel
+example : siteHoldsOn id .newProxy mRewrite.newProxyPlugins (encContent.newProxy [112] [98, 43]) true
+    [(1, ⟨[112], [98, 43]⟩)] = true := by decide +kernel
+
+end siteExamples
 
 end examples
 
